@@ -1,0 +1,18 @@
+//go:build verif
+
+package kmip
+
+import "reflect"
+
+// This file is only compiled with the "verif" build tag. It exposes a read-only
+// view of the object type table to the external verification harness. It adds
+// no behaviour to the library.
+
+// VerifObjectTypes returns a copy of object type -> struct type (objectTypes).
+func VerifObjectTypes() map[ObjectType]reflect.Type {
+	out := map[ObjectType]reflect.Type{}
+	for k, v := range objectTypes {
+		out[k] = v
+	}
+	return out
+}
